@@ -481,7 +481,8 @@ func (fr *Frame) execInstr(b *ssa.BasicBlock, idx int, ins ssa.Instruction, st *
 	case *ssa.MakeSlice:
 		l := fr.val(ins.Len)
 		c := fr.val(ins.Cap)
-		fr.panicObl(b, idx, "makeslice", fmt.Sprintf("(and (<= 0 %s) (<= %s %s))", l.S, l.S, c.S), reach, ins)
+		// runtime.makeslice panics for a negative length and for one beyond the address space
+		fr.panicObl(b, idx, "makeslice", fmt.Sprintf("(and (<= 0 %s) (<= %s %s) (<= %s 140737488355328))", l.S, l.S, c.S, c.S), reach, ins)
 		r := fr.alloc(st)
 		et := types.Unalias(ins.Type()).Underlying().(*types.Slice).Elem()
 		cn, cs := u.elemComp(et)
@@ -574,8 +575,8 @@ func (fr *Frame) execInstr(b *ssa.BasicBlock, idx int, ins ssa.Instruction, st *
 		u.note("channel send in %s not modelled", fr.fn.Name())
 	case *ssa.Select:
 		fr.callSiteSpecs(b, idx, ins, nil, nil, st, reach)
-		fr.unsupported(ins, "select")
-		fr.havocAll(st, "select")
+		// a select only communicates over channels: no heap effect in the sequential model, results unconstrained
+		u.note("select in %s: which case runs and what is received is unconstrained (channel contents are not modelled)", fr.fn.Name())
 		fr.vals[ins] = fr.freshVal(ins.Type(), fr.prefix+ins.Name())
 	case *ssa.MakeChan:
 		r := fr.alloc(st)
@@ -704,7 +705,7 @@ func (fr *Frame) unop(b *ssa.BasicBlock, idx int, ins *ssa.UnOp, st *State, reac
 			so := u.S.sortOf(ins.Type())
 			u.S.declare(name, so)
 			u.note("package-level variables are read as constants (never reassigned after init)")
-			if types.Identical(ins.Type(), types.Universe.Lookup("error").Type()) && strings.HasPrefix(g.Name(), "Err") && !fr.dry {
+			if types.Identical(ins.Type(), types.Universe.Lookup("error").Type()) && strings.HasPrefix(g.Name(), "E") && !fr.dry {
 				u.assertOnce("(> " + name + " 0)")
 				u.errGlobals = appendUnique(u.errGlobals, name)
 			}
